@@ -525,6 +525,78 @@ fn pairing_rows(rows: &mut Vec<(String, RowFn)>) {
     type F12 = <E as Pairing>::TargetField;
     rows.push(frob_row::<F2>("Fp2", [1, 2, 3], 4));
     rows.push(frob_row::<F12>("Fp12(and Fp6)", [4, 5, 6], 12));
+    // the published non-residues of the tower are what the adjoined generators square / cube to, and
+    // they are byte-identical to the reference engine's
+    {
+        use ark_ff::{CubicExtConfig, CubicExtField, QuadExtConfig, QuadExtField};
+        use ark_serialize::CanonicalSerialize;
+        trait QuadOf {
+            type P: QuadExtConfig;
+        }
+        impl<P: QuadExtConfig> QuadOf for QuadExtField<P> {
+            type P = P;
+        }
+        trait CubicOf {
+            type P: CubicExtConfig;
+        }
+        impl<P: CubicExtConfig> CubicOf for CubicExtField<P> {
+            type P = P;
+        }
+        fn ser<T: CanonicalSerialize>(x: &T) -> Vec<u8> {
+            let mut v = Vec::new();
+            x.serialize_uncompressed(&mut v).expect("serialize");
+            v
+        }
+        fn quad_nonresidue<F: QuadOf>() -> Result<Vec<u8>, String> {
+            let w = QuadExtField::<F::P>::new(<F::P as QuadExtConfig>::BaseField::ZERO, <F::P as QuadExtConfig>::BaseField::ONE);
+            let nr = QuadExtField::<F::P>::new(<F::P as QuadExtConfig>::NONRESIDUE, <F::P as QuadExtConfig>::BaseField::ZERO);
+            if w.square() != nr {
+                return Err("the adjoined square root does not square to the published NONRESIDUE".into());
+            }
+            let mut t = <F::P as QuadExtConfig>::BaseField::ONE;
+            <F::P as QuadExtConfig>::mul_base_field_by_nonresidue_in_place(&mut t);
+            if t != <F::P as QuadExtConfig>::NONRESIDUE {
+                return Err("mul_base_field_by_nonresidue(1) != NONRESIDUE".into());
+            }
+            Ok(ser(&<F::P as QuadExtConfig>::NONRESIDUE))
+        }
+        fn cubic_nonresidue<F: CubicOf>() -> Result<Vec<u8>, String> {
+            let v = CubicExtField::<F::P>::new(<F::P as CubicExtConfig>::BaseField::ZERO, <F::P as CubicExtConfig>::BaseField::ONE, <F::P as CubicExtConfig>::BaseField::ZERO);
+            let nr = CubicExtField::<F::P>::new(<F::P as CubicExtConfig>::NONRESIDUE, <F::P as CubicExtConfig>::BaseField::ZERO, <F::P as CubicExtConfig>::BaseField::ZERO);
+            if v.square() * v != nr {
+                return Err("the adjoined cube root does not cube to the published NONRESIDUE".into());
+            }
+            let mut t = <F::P as CubicExtConfig>::BaseField::ONE;
+            <F::P as CubicExtConfig>::mul_base_field_by_nonresidue_in_place(&mut t);
+            if t != <F::P as CubicExtConfig>::NONRESIDUE {
+                return Err("mul_base_field_by_nonresidue(1) != NONRESIDUE".into());
+            }
+            Ok(ser(&<F::P as CubicExtConfig>::NONRESIDUE))
+        }
+        type RE = ark_bls12_377::Bls12_377;
+        type RF12 = <RE as Pairing>::TargetField;
+        type F6 = <<F12 as QuadOf>::P as QuadExtConfig>::BaseField;
+        type RF6 = <<RF12 as QuadOf>::P as QuadExtConfig>::BaseField;
+        type RF2 = <<RE as Pairing>::G2Affine as ark_ec::AffineRepr>::BaseField;
+        rows.push((
+            "ark:Fp12/Fp6/Fp2::NONRESIDUE(defining equation, reference)".into(),
+            Box::new(move || {
+                let (a, b) = (quad_nonresidue::<F12>().map_err(|e| format!("Fp12: {e}"))?, quad_nonresidue::<RF12>().map_err(|e| format!("reference Fp12: {e}"))?);
+                if a != b {
+                    return Err("Fp12 NONRESIDUE differs from the reference engine's".into());
+                }
+                let (a, b) = (cubic_nonresidue::<F6>().map_err(|e| format!("Fp6: {e}"))?, cubic_nonresidue::<RF6>().map_err(|e| format!("reference Fp6: {e}"))?);
+                if a != b {
+                    return Err("Fp6 NONRESIDUE differs from the reference engine's".into());
+                }
+                let (a, b) = (quad_nonresidue::<F2>().map_err(|e| format!("Fp2: {e}"))?, quad_nonresidue::<RF2>().map_err(|e| format!("reference Fp2: {e}"))?);
+                if a != b {
+                    return Err("Fp2 NONRESIDUE differs from the reference engine's".into());
+                }
+                Ok(())
+            }),
+        ));
+    }
     rows.push((
         "ark:Fp2::NONRESIDUE".into(),
         Box::new(move || {
